@@ -283,7 +283,10 @@ func runC05(c *Ctx) {
 
 	c.Rule("C05-D6", "a namespace disconnect touches only its own socket: onDisconnect / Disconnect(false) reach the socket's onClose and never conn.close/disconnectAll; the socket removes only itself from the connection", 4)
 	{
-		fn := p.Fn("sio", "serverSocket.onDisconnect")
+		fn := p.FnOpt("sio", "serverSocket.onDisconnect")
+		if fn == nil {
+			fn = p.Fn("sio", "serverSocket.onPacket") // helper inlined into its only caller
+		}
 		bad := CallsTo(CallsDeep(fn), `\(\*sio\.serverConn\)\.(close|disconnectAll|onClose)|\(eio\..*\)\.Close`)
 		c.Ob("C05-D6", "sio.serverSocket.onDisconnect/own-socket-only", fn.Pos(), len(bad) == 0 && len(CallsTo(Calls(fn), `\(\*sio\.serverSocket\)\.onClose`)) == 1, "a DISCONNECT packet for one namespace must close that socket only")
 		d := p.Fn("sio", "serverSocket.Disconnect")
@@ -297,7 +300,10 @@ func runC05(c *Ctx) {
 			}
 		}
 		c.Ob("C05-D6", "sio.serverConn.remove/only-that-socket", rm.Pos(), ok, "serverConn.remove must remove exactly the given socket")
-		cd := p.Fn("sio", "clientSocket.onDisconnect")
+		cd := p.FnOpt("sio", "clientSocket.onDisconnect")
+		if cd == nil {
+			cd = p.Fn("sio", "clientSocket.onPacket")
+		}
 		c.Ob("C05-D6", "sio.clientSocket.onDisconnect/own-socket-only", cd.Pos(), len(CallsTo(Calls(cd), `\(\*sio\.clientSocket\)\.onClose`)) == 1, "client DISCONNECT handling must close this socket")
 	}
 	c.Rule("C05-D8", "one namespace's end or replay does not leak into another: (a) whatever the close reason, a connected server socket's close body removes the socket from its connection's routing table (conn.remove) and from its namespace "+
